@@ -62,6 +62,21 @@ def cnStep (s : State) (ws : List String) : State × String :=
   match ws with
   | ["cn.reset", noise, login] => let s' : State := { noise := noise == "1", login := login == "1" }; (s', "ok")
   | ["cn.nop"] => (s, showState s)
+  | "cn.judge" :: login :: expected :: resps =>
+    -- resps: h:<major>:<name hex> | c:<invalid 0/1>
+    let exp : Option (Option (List Nat)) := if expected == "-" then some none else (hexToBytes expected).map (fun b => some (b.map (·.toNat)))
+    let parse (w : String) : Option HResp := match w.splitOn ":" with
+      | ["h", m, n] => match m.toNat?, hexToBytes n, exp with
+        | some m, some nb, some e => some (.hello (versionOk m) (nameOk e (nb.map (·.toNat))))
+        | _, _, _ => none
+      | ["c", i] => some (.connect (i == "1"))
+      | _ => none
+    match resps.mapM parse with
+    | some rs => (s, match judge (login == "1") rs with
+        | none => "accept"
+        | some (.api e) => s!"err:{showErr e}"
+        | some _ => "err:unhandled")
+    | none => (s, "bad-op")
   | "cn.ev" :: rest =>
     match parseEv rest with
     | some e => let s' := step s e; (s', showState s')
